@@ -28,7 +28,9 @@ TRUSTED = [
     "BaseInput.needs_sorting and bisect.bisect_left over abstract histories (top-level groups as items, times as "
     "integers in 1/8 s, definition names as ids); tied by the correspondence run (onsets, event_list "
     "start/end/end_time/contents, base, contexts, hed_strings per row)",
-    "DataFrame.sort_values(kind='stable') in sort_dataframe_by_onsets is modelled as a stable insertion sort: the "
+    "the model follows the CURRENT /repo: DataFrame.sort_values(kind='stable') in sort_dataframe_by_onsets (fix commit "
+    "29fcd01) is modelled as a stable insertion sort, unconvertible Delay groups stay in their row (ef31cc7, e4bce88), "
+    "markers are recognised by short base tag also under a namespace (4d37e17); the "
     "order inside a time point is the file order (kept rows first, then the Delay-shifted groups in file order); "
     "event_list, base, contexts and hed_strings are compared as SEQUENCES",
     "parsing/assembly (HedString, find_top_level_tags, TabularInput/Sidecar assembly, shrink_defs) and "
@@ -53,6 +55,10 @@ ASSUMPTIONS = [
     "a schema namespace ('ts:') and DataFrame row labels other than 0..n-1 are input dimensions of the harness only: "
     "the model's items are spelling-free (C20_relabel_instance is one kernel-evaluated instance), so the same model "
     "answer is required for them",
+    "two Props statements hold by construction of the model and get their link to the code only from the "
+    "correspondence run: C20_unordered_rejected (first test of event_manager; its converse C20_rejected_iff_unordered is "
+    "proved through every partial operation) and C20_remaining_kept (how o_hed is computed; C20_remaining_from_file is the "
+    "file-level statement, proved)",
     "ghost rows (the second and later file rows of one time point, emptied by filter_series_by_onset) are not time "
     "points of the property: their event_list/base/hed_strings must be empty, their contexts are compared with the "
     "model only",
